@@ -463,6 +463,9 @@ class DatasetProcessor:
         logger.info("Processing experiment " + sample.prefix)
         logger.info("Experiment has " + proper_plural_form("BAM file", len(sample.file_list)) + ": " + ", ".join(
             map(lambda x: x[0], sample.file_list)))
+        if getattr(self.args, "auto_read_group", False):
+            # no --read_group was given: group by file name only when this experiment has several files
+            self.args.read_group = "file_name" if len(sample.file_list) > 1 else None
         self.args.use_technical_replicas = self.args.read_group == "file_name" and len(sample.file_list) > 1
         # isoforms detected in the previous experiment must not affect this one
         GraphBasedModelConstructor.detected_known_isoforms = set()
